@@ -12,7 +12,7 @@ from ..world import real_eval, compare_with_model
 
 ID = 'C03'
 LEVEL = 'exploration'
-TIERS = {'quick': 480, 'thorough': 20000}
+TIERS = {'quick': 720, 'thorough': 20000}
 WALL_CAP = 180
 CAP = 10000
 RULE = ('seeded histories (4-16 single-statement evals) on one parser over host lists/dicts of 0, 1, 9998, 9999, '
@@ -71,7 +71,23 @@ def _gen_op(r, model):
     te, obj = r.choice(tg)
     n = len(obj)
     is_list = isinstance(obj, list)
-    k = weighted(r, [('add', 8), ('remove', 3), ('grow', 5), ('derive', 4), ('read', 1), ('hostcall', 1.2), ('newsyntax', 0.8)])
+    k = weighted(r, [('add', 8), ('remove', 3), ('grow', 5), ('derive', 4), ('read', 1), ('hostcall', 1.2), ('newsyntax', 0.8), ('oddpos', 1.6)])
+    if k == 'oddpos':
+        # an adder given a position that is no position (non-finite, None, text, twenty digits): at the cap the refusal
+        # comes first, below it the error is an ordinary failure - never growth
+        lists = [(t_, o_) for t_, o_ in tg if isinstance(o_, list)]
+        if lists:
+            te2, obj2 = r.choice([x for x in lists if len(x[1]) >= CAP] or lists)
+            inf = ['call', 'float', [['str', r.choice(['inf', 'nan', '-inf', 'Infinity'])]], 'plain']
+            pos = r.choice([inf, inf, ['neg', inf], ['none'], ['str', 'x'], ['num', '9223372036854775808'], ['neg', ['num', '9223372036854775809']], ['num', '99999999999999999999']])
+            v = r.choice([['num', '7'], ['list', [['num', '1']]]])
+            how = r.choice(['set', 'insert', 'setop'])
+            if how == 'set':
+                return ['setitem', te2, pos, v], 'setitem'
+            if how == 'insert':
+                return ['call', 'insert', [te2, pos, v], gen.sugar(r, 3)], 'insert'
+            return ['setitemop', te2, pos, '+=', ['num', '1']], 'setitemop'
+        k = 'add'
     if k == 'newsyntax' and te[0] == 'name':
         # statement forms that are not in the language today (a syntax error changes nothing); should one ever be
         # added it must respect the cap like every other adder
